@@ -8,6 +8,21 @@ from vectorizers import HistogramVectorizer, KDEVectorizer
 from vectorizers._vectorizers import find_bin_boundaries
 
 
+def expand_seq(s):
+    """A sequence is a list of numbers, or {"gen": [n, p, q, lo, scale, m, drift]} for a long one:
+    x_i = lo + ((i * p) % q) * scale + (i // m) * drift  (every term is a dyadic number: exact in binary64)."""
+    if isinstance(s, dict):
+        n, p_, q, lo, scale, m, drift = s["gen"]
+        return [lo + ((i * p_) % q) * scale + (i // m) * drift for i in range(n)]
+    return s
+
+
+def expand_perm(p, n):
+    if isinstance(p, dict):
+        return [int(i) for i in np.random.RandomState(p["seed"]).permutation(n)]
+    return p
+
+
 def rat(x):
     x = float(x)
     if x == float("inf"):
@@ -123,6 +138,7 @@ def run_kde(c):
     test = [np.asarray(s, dtype=np.float64) for s in c["test"]]
     out["rows"] = fl(m.transform(test))
     out["perm_rows"] = fl(m.transform([t[np.asarray(p, dtype=np.int64)] for t, p in zip(test, c["perms"])]))
+    out["rev_rows"] = fl(m.transform([t[::-1].copy() for t in test]))
     out["dup_rows"] = fl(m.transform([np.concatenate([t, t]) for t in test]))
     out["rows_single"] = [fl(m.transform([t]))[0] for t in test]
     return {"ok": out}
@@ -131,6 +147,9 @@ def run_kde(c):
 cases = json.load(open(sys.argv[1]))
 res = []
 for c in cases:
+    c["test"] = [expand_seq(s) for s in c["test"]]
+    if "perms" in c:
+        c["perms"] = [expand_perm(p, len(s)) for p, s in zip(c["perms"], c["test"])]
     try:
         res.append(run_hist(c) if c["kind"] == "hist" else run_kde(c))
     except Exception as e:
